@@ -117,3 +117,85 @@ def reg_record(c):
         response=AuthenticatorAttestationResponse(client_data_json=c["client_data_json"],
                                                   attestation_object=c["attestation_object"],
                                                   transports=c.get("transports")))
+
+
+ALL_ALGS = [-7, -8, -36, -37, -38, -39, -257, -258, -259, -65535]
+
+
+def run_reg(c, e, form="record"):
+    """e: challenge, rp_id, origin, require_up, require_uv, algs (list|None), roots {fmt: [pem]}"""
+    import json
+    if form == "record":
+        cred = reg_record(c)
+    elif form == "dict":
+        cred = core.to_reg_json(c)
+    else:
+        cred = json.dumps(core.to_reg_json(c))
+    kw = {}
+    if e.get("algs") is not None:
+        kw["supported_pub_key_algs"] = list(e["algs"])
+    roots = e.get("roots") or {}
+
+    def call():
+        return webauthn.verify_registration_response(
+            credential=cred, expected_challenge=e["challenge"], expected_rp_id=e["rp_id"],
+            expected_origin=e["origin"], require_user_presence=e.get("require_up", True),
+            require_user_verification=e.get("require_uv", False),
+            pem_root_certs_bytes_by_fmt={AttestationFormat(k): list(v) for k, v in roots.items()} if roots else None, **kw)
+    return code_outcome(call, record=lambda r: {
+        "credential_id": r.credential_id.hex(), "credential_public_key": r.credential_public_key.hex(),
+        "sign_count": str(r.sign_count), "aaguid": r.aaguid, "fmt": r.fmt.value if hasattr(r.fmt, "value") else r.fmt,
+        "credential_type": r.credential_type.value if hasattr(r.credential_type, "value") else r.credential_type,
+        "user_verified": r.user_verified, "attestation_object": r.attestation_object.hex(),
+        "credential_device_type": r.credential_device_type.value, "credential_backed_up": r.credential_backed_up})
+
+
+def default_algs():
+    from webauthn.registration.generate_registration_options import default_supported_pub_key_algs
+    return [int(a) for a in default_supported_pub_key_algs]
+
+
+def reg_case(c, e):
+    algs = e.get("algs")
+    if algs is None:
+        algs = default_algs()
+    roots = e.get("roots") or {}
+    return {"op": "verify_reg",
+            "cred": {"id": c["id"], "raw_id": c["raw_id"].hex(), "type": c.get("type", "public-key"),
+                     "cdj": c["client_data_json"].hex(), "att_obj": c["attestation_object"].hex()},
+            "expect": {"challenge": e["challenge"].hex(), "rp_id": e["rp_id"], "origin": e["origin"],
+                       "require_up": e.get("require_up", True), "require_uv": e.get("require_uv", False),
+                       "algs": [str(a) for a in algs],
+                       "roots": [[k, [bytes(p).hex() for p in v]] for k, v in roots.items()]}}
+
+
+def code_parse_cert_info(b):
+    from webauthn.helpers.tpm import parse_cert_info
+
+    def rec(c):
+        return {"magic": c.magic.hex(), "type": c.type.value, "qualified_signer": c.qualified_signer.hex(),
+                "extra_data": c.extra_data.hex(), "clock": c.clock_info.clock.hex(),
+                "reset_count": str(c.clock_info.reset_count), "restart_count": str(c.clock_info.restart_count),
+                "safe": c.clock_info.safe, "firmware_version": c.firmware_version.hex(),
+                "name_alg": c.attested.name_alg.value, "name_alg_bytes": c.attested.name_alg_bytes.hex(),
+                "name": c.attested.name.hex(), "qualified_name": c.attested.qualified_name.hex()}
+    return code_outcome(lambda: parse_cert_info(b), rec)
+
+
+def code_parse_pub_area(b):
+    from webauthn.helpers.tpm import parse_pub_area
+    import webauthn.helpers.tpm.structs as ts
+
+    def rec(p):
+        oa = p.object_attributes
+        names = [n for n in ts.TPMPubAreaObjectAttributes.__annotations__]
+        if isinstance(p.parameters, ts.TPMPubAreaParametersRSA):
+            params = {"kind": "rsa", "symmetric": p.parameters.symmetric.value, "scheme": p.parameters.scheme.value,
+                      "key_bits": p.parameters.key_bits.hex(), "exponent": p.parameters.exponent.hex()}
+        else:
+            params = {"kind": "ecc", "symmetric": p.parameters.symmetric.value, "scheme": p.parameters.scheme.value,
+                      "curve_id": p.parameters.curve_id.value, "kdf": p.parameters.kdf.value}
+        return {"type": p.type.value, "name_alg": p.name_alg.value,
+                "object_attributes": [getattr(oa, n) for n in names], "auth_policy": p.auth_policy.hex(),
+                "parameters": params, "unique": p.unique.value.hex()}
+    return code_outcome(lambda: parse_pub_area(b), rec)
